@@ -222,9 +222,15 @@ impl Drop for CbGuard {
     }
 }
 
-#[derive(Clone)]
 pub struct Tick {
     pub timer: Uid,
+}
+/// `Context::interval` clones its message for every expiry: the clone is the firing event
+impl Clone for Tick {
+    fn clone(&self) -> Self {
+        log::log(K::TimerFire { id: self.timer });
+        Tick { timer: self.timer }
+    }
 }
 impl Message for Tick {
     type Response = ();
@@ -318,12 +324,25 @@ impl<const KK: usize> Probe<KK> {
         log::log(K::TimerReg { id, actor, tag: self.tag, kind, dur: d });
         match kind {
             "interval" => ctx.interval(Tick { timer: id }, rt::dur(d)),
-            "interval_with" => ctx.interval_with(move || Tick { timer: id }, rt::dur(d)),
-            "delayed_send" => ctx.delayed_send(move || Tick { timer: id }, rt::dur(d)),
+            "interval_with" => ctx.interval_with(
+                move || {
+                    log::log(K::TimerFire { id });
+                    Tick { timer: id }
+                },
+                rt::dur(d),
+            ),
+            "delayed_send" => ctx.delayed_send(
+                move || {
+                    log::log(K::TimerFire { id });
+                    Tick { timer: id }
+                },
+                rt::dur(d),
+            ),
             _ => {
                 let tag = self.tag;
                 ctx.delayed_exec(
                     async move {
+                        log::log(K::TimerFire { id });
                         log::log(K::Exec { id, actor_tag: tag });
                     },
                     rt::dur(d),
